@@ -321,7 +321,7 @@ namespace
       int nops = 1 + int(sim::cfg_weighted("fault_ops", {5, 2, 1}));
       for(int k = 0; k < nops; ++k)
       {
-        int kind = int(sim::cfg_weighted(("fault_kind" + std::to_string(k)).c_str(), {4, 2, 1, 1, 3, 3, 3, 2, 2, 2, 2, 3, 2, 3, 2}));
+        int kind = int(sim::cfg_weighted(("fault_kind" + std::to_string(k)).c_str(), {4, 2, 1, 1, 3, 3, 3, 2, 2, 2, 2, 3, 2, 3, 2, 2, 1}));
         int bias = int(sim::cfg_int(("fault_bias" + std::to_string(k)).c_str(), 0, 1));
         switch(kind)
         {
@@ -340,6 +340,8 @@ namespace
         case 12: dup_element(bf, log); break;
         case 13: attr_change(bf, log); break;
         case 14: close_element(bf, log); break;
+        case 15: part_drop_dimension(bf, log); break;
+        case 16: part_make_empty(bf, log); break;
         }
       }
       size_t eof_limit = size_t(-1);
@@ -723,6 +725,99 @@ namespace
       sim::count_fault("MAPPING_OOR");
     }
 
+    // ---- authoring variants: what a file written by hand may legitimately look like (or not - nothing is claimed; an input
+    // that the reader accepts has to be writable and the writer's output has to be read back as the same thing)
+    // all <MeshPart ...> ... </MeshPart> elements: [begin of the markup line, end of the closing line)
+    static std::vector<std::pair<size_t, size_t>> mesh_parts(const std::string& s)
+    {
+      std::vector<std::pair<size_t, size_t>> r;
+      for(size_t p = s.find("<MeshPart "); p != std::string::npos; p = s.find("<MeshPart ", p + 1))
+      {
+        size_t e = s.find("</MeshPart>", p);
+        if(e == std::string::npos) break;
+        r.emplace_back(p, e + 11);
+      }
+      return r;
+    }
+    static bool part_sizes(const std::string& part, size_t& q, size_t& qe, std::vector<long>& sz)
+    {
+      size_t eol = part.find('\n');
+      q = part.find("size=\"");
+      if(q == std::string::npos || q > eol) return false;
+      q += 6; qe = part.find('"', q);
+      if(qe == std::string::npos) return false;
+      sz.clear();
+      const char* c = part.c_str() + q;
+      while(c < part.c_str() + qe) { while(*c == ' ') ++c; if(!isdigit((unsigned char)*c)) break; sz.push_back(atol(c)); while(isdigit((unsigned char)*c)) ++c; }
+      return !sz.empty();
+    }
+    static void erase_blocks(std::string& part, const std::string& open_prefix, const std::string& close_tag, bool keep_markups)
+    {
+      for(size_t p = part.find(open_prefix); p != std::string::npos; p = part.find(open_prefix, p + (keep_markups ? open_prefix.size() : 0)))
+      {
+        size_t ls = part.rfind('\n', p); ls = (ls == std::string::npos) ? 0 : ls + 1;
+        size_t ce = part.find(close_tag, p);
+        if(ce == std::string::npos) return;
+        size_t le = part.find('\n', ce); le = (le == std::string::npos) ? part.size() : le + 1;
+        if(!keep_markups) { part.erase(ls, le - ls); p = ls; if(p >= part.size()) return; --p; }
+        else
+        {
+          size_t first = part.find('\n', p); if(first == std::string::npos) return; ++first;
+          size_t cls = part.rfind('\n', ce); cls = (cls == std::string::npos) ? first : cls + 1;
+          if(cls > first) part.erase(first, cls - first);
+        }
+      }
+    }
+    // a part with full topology that lists its cells (and vertices) but not the entities of one dimension in between
+    static void part_drop_dimension(Bytes& b, simfs::FaultLog& log)
+    {
+      std::string s(b.begin(), b.end());
+      std::vector<std::pair<size_t, size_t>> cand;
+      for(auto pr : mesh_parts(s))
+      {
+        std::string part = s.substr(pr.first, pr.second - pr.first);
+        size_t q, qe; std::vector<long> sz;
+        if(part.find("topology=\"full\"") > part.find('\n') || !part_sizes(part, q, qe, sz) || sz.size() < 3) continue;
+        bool ok = false; for(size_t d = 1; d + 1 < sz.size(); ++d) for(size_t e = d + 1; e < sz.size(); ++e) if(sz[e] > 0) ok = true;
+        if(ok) cand.push_back(pr);
+      }
+      if(cand.empty()) return;
+      auto pr = cand[simfs::pick(cand.size(), "pdd_part")];
+      std::string part = s.substr(pr.first, pr.second - pr.first);
+      size_t q, qe; std::vector<long> sz; part_sizes(part, q, qe, sz);
+      std::vector<size_t> dims; for(size_t d = 1; d + 1 < sz.size(); ++d) { bool hi = false; for(size_t e = d + 1; e < sz.size(); ++e) hi = hi || sz[e] > 0; if(hi) dims.push_back(d); }
+      const size_t d = dims[simfs::pick(dims.size(), "pdd_dim")];
+      sz[d] = 0;
+      std::string ns; for(size_t i = 0; i < sz.size(); ++i) ns += (i ? " " : "") + std::to_string(sz[i]);
+      part.replace(q, qe - q, ns);
+      erase_blocks(part, "<Mapping dim=\"" + std::to_string(d) + "\"", "</Mapping>", false);
+      erase_blocks(part, "<Topology dim=\"" + std::to_string(d) + "\"", "</Topology>", false);
+      s.replace(pr.first, pr.second - pr.first, part);
+      b.assign(s.begin(), s.end());
+      log.ops += "PART_DROP_DIM(" + std::to_string(d) + ") ";
+      sim::count_fault("PART_DROP_DIM");
+    }
+    // a mesh part without any entity (its attributes, if any, keep their markup and lose their values)
+    static void part_make_empty(Bytes& b, simfs::FaultLog& log)
+    {
+      std::string s(b.begin(), b.end());
+      auto parts = mesh_parts(s);
+      if(parts.empty()) return;
+      auto pr = parts[simfs::pick(parts.size(), "pme_part")];
+      std::string part = s.substr(pr.first, pr.second - pr.first);
+      size_t q, qe; std::vector<long> sz;
+      if(!part_sizes(part, q, qe, sz)) return;
+      std::string ns; for(size_t i = 0; i < sz.size(); ++i) ns += (i ? " 0" : "0");
+      part.replace(q, qe - q, ns);
+      erase_blocks(part, "<Mapping dim=", "</Mapping>", false);
+      erase_blocks(part, "<Topology dim=", "</Topology>", false);
+      erase_blocks(part, "<Attribute ", "</Attribute>", true);
+      s.replace(pr.first, pr.second - pr.first, part);
+      b.assign(s.begin(), s.end());
+      log.ops += "PART_EMPTY ";
+      sim::count_fault("PART_EMPTY");
+    }
+
     // after byte-level faults a declared count may have become astronomically large: nothing can be asserted about
     // memory behaviour then (the format has no size limit), so such inputs are not fed to the reader
     static bool declares_huge(const Bytes& bf, const Bytes& orig)
@@ -762,6 +857,35 @@ namespace
       part->add_attribute(std::move(at), "gen:attr");
     }
     node->add_mesh_part("gen:boundary", std::move(part));
+    {
+      // a part that holds one entity of dimension T = min(shape dimension, 2) - a cell, in 3D a face (FEAT cannot refine mesh
+      // parts that contain hexahedra) - with all its sub-entities and its own (full) topology
+      constexpr int D = Mesh_::shape_dim;
+      constexpr int T = D < 2 ? D : 2;
+      const Mesh_& mesh = *node->get_mesh();
+      const Index top = mesh.get_num_entities(T) / 2u;
+      Index cnt[D + 1];
+      std::vector<Index> ents[D + 1];
+      ents[T].push_back(top);
+      { const auto& is = mesh.template get_index_set<T, 0>(); for(int k = 0; k < is.num_indices; ++k) ents[0].push_back(is(top, k)); }
+      if constexpr(T >= 2) { const auto& is = mesh.template get_index_set<T, 1>(); for(int k = 0; k < is.num_indices; ++k) ents[1].push_back(is(top, k)); }
+      for(int d = 0; d <= D; ++d) cnt[d] = Index(ents[d].size());
+      std::unique_ptr<Geometry::MeshPart<Mesh_>> cp(new Geometry::MeshPart<Mesh_>(cnt, true));
+      std::map<Index, Index> loc; for(size_t i = 0; i < ents[0].size(); ++i) loc[ents[0][i]] = Index(i);
+      for(size_t i = 0; i < ents[0].size(); ++i) cp->template get_target_set<0>()[Index(i)] = ents[0][i];
+      if constexpr(T >= 2)
+      {
+        const auto& is = mesh.template get_index_set<1, 0>();
+        for(size_t i = 0; i < ents[1].size(); ++i) { cp->template get_target_set<1>()[Index(i)] = ents[1][i]; for(int k = 0; k < is.num_indices; ++k) cp->template get_index_set<1, 0>()(Index(i), k) = loc[is(ents[1][i], k)]; }
+      }
+      {
+        const auto& is = mesh.template get_index_set<T, 0>();
+        cp->template get_target_set<T>()[0] = top;
+        for(int k = 0; k < is.num_indices; ++k) cp->template get_index_set<T, 0>()(0, k) = loc[is(top, k)];
+      }
+      Geometry::RedundantIndexSetBuilder<typename Mesh_::ShapeType>::compute(*cp->get_topology());
+      node->add_mesh_part("gen:cell", std::move(cp));
+    }
     Geometry::PartitionSet parts;
     {
       const Index ne = node->get_mesh()->get_num_elements();
